@@ -33,7 +33,7 @@ mutual
     | query {q' q : Query} : q'.canon = q.canon → Sim (.query q') (.query q)
     | pair {a' a b' b : Val} : Sim a' a → Sim b' b → Sim (.pair a' b') (.pair a b)
     | fn {v' v : Val} {b : Builtin} {L' L : List Val} : FnLike v' b L' → FnLike v b L → Sims L' L →
-        depth v' ≤ depth v → Sim v' v
+        depth v' ≤ depth v → (b.variadic.isSome = true → depth v = depth v') → Sim v' v
   inductive Sims : List Val → List Val → Prop
     | nil : Sims [] []
     | cons {a' a : Val} {as' as : List Val} : Sim a' a → Sims as' as → Sims (a' :: as') (a :: as)
@@ -72,21 +72,21 @@ theorem FnLike.not_data {v : Val} {b : Builtin} {L : List Val} (h : FnLike v b L
 
 theorem Sim.callable {v' v : Val} (h : Sim v' v) : v'.isCallable = v.isCallable := by
   cases h with
-  | fn h1 h2 _ _ => rw [h1.callable, h2.callable]
+  | fn h1 h2 _ _ _ => rw [h1.callable, h2.callable]
   | _ => rfl
 
 theorem Sim.arity {v' v : Val} (h : Sim v' v) : v'.arity = v.arity := by
   cases h with
-  | fn h1 h2 hs _ => rw [h1.arity.1, h2.arity.1, Sims_length hs]
+  | fn h1 h2 hs _ _ => rw [h1.arity.1, h2.arity.1, Sims_length hs]
   | _ => rfl
 
 theorem Sim.literalable {v' v : Val} (h : Sim v' v) : v'.literalable = v.literalable := by
   cases h with
-  | fn h1 h2 _ _ => cases h1 <;> cases h2 <;> rfl
+  | fn h1 h2 _ _ _ => cases h1 <;> cases h2 <;> rfl
   | _ => rfl
 
 theorem Sim.refl_builtin (b : Builtin) : Sim (.builtin b) (.builtin b) :=
-  .fn (.base b) (.base b) .nil (Nat.le_refl _)
+  .fn (.base b) (.base b) .nil (Nat.le_refl _) (fun _ => rfl)
 
 /-- what a caller observes, queries in canonical form -/
 def cobs (v : Val) : Obs := (Simplify.canonVal v).obs
@@ -103,8 +103,8 @@ theorem Sim.cobs_eq : ∀ (v' v : Val), Sim v' v → cobs v' = cobs v
     have e2 := Sim.cobs_eq b' b h2
     show Obs.pair (cobs a') (cobs b') = Obs.pair (cobs a) (cobs b)
     rw [e1, e2]
-  | v', v, .fn h1 h2 hs hd => by
-    have ha := (Sim.fn h1 h2 hs hd).arity
+  | v', v, .fn h1 h2 hs hd hv => by
+    have ha := (Sim.fn h1 h2 hs hd hv).arity
     cases h1 <;> cases h2 <;> exact congrArg Obs.fn ha
 
 /-! transitivity -/
@@ -117,16 +117,16 @@ mutual
     | _, _, _, .query h1, h => by
       cases h with
       | query h2 => exact .query (h1.trans h2)
-      | fn f1 _ _ _ => exact absurd rfl (f1.not_data.2.2.1 _)
+      | fn f1 _ _ _ _ => exact absurd rfl (f1.not_data.2.2.1 _)
     | _, _, _, .pair h1 h2, h => by
       cases h with
       | pair g1 g2 => exact .pair (Sim.trans h1 g1) (Sim.trans h2 g2)
-      | fn f1 _ _ _ => exact absurd rfl (f1.not_data.2.2.2.2 _ _)
-    | _, _, _, .fn f1 f2 hs hd, h => by
+      | fn f1 _ _ _ _ => exact absurd rfl (f1.not_data.2.2.2.2 _ _)
+    | _, _, _, .fn f1 f2 hs hd hv, h => by
       cases h with
-      | fn g1 g2 gs gd =>
+      | fn g1 g2 gs gd gv =>
         obtain ⟨rfl, rfl⟩ := FnLike.det f2 g1
-        exact .fn f1 g2 (Sims.trans hs gs) (Nat.le_trans hd gd)
+        exact .fn f1 g2 (Sims.trans hs gs) (Nat.le_trans hd gd) (fun hh => (gv hh).trans (hv hh))
       | int i => exact absurd rfl (f2.not_data.1 _)
       | str s => exact absurd rfl (f2.not_data.2.1 _)
       | other k t => exact absurd rfl (f2.not_data.2.2.2.1 _ _)
@@ -174,25 +174,25 @@ theorem convert_sim {t : Ty} {v' v : Val} (h : Sim v' v) : ResSim (convert t v')
     split <;> simp [ResSim, h0]
   | int =>
     cases h with
-    | fn f1 f2 _ _ => cases f1 <;> cases f2 <;> simp [convert, ResSim]
+    | fn f1 f2 _ _ _ => cases f1 <;> cases f2 <;> simp [convert, ResSim]
     | _ => simp [convert, ResSim] <;> constructor
   | str =>
     cases h with
-    | fn f1 f2 _ _ => cases f1 <;> cases f2 <;> simp [convert, ResSim]
+    | fn f1 f2 _ _ _ => cases f1 <;> cases f2 <;> simp [convert, ResSim]
     | _ => simp [convert, ResSim] <;> constructor
   | pair =>
     cases h with
-    | fn f1 f2 _ _ => cases f1 <;> cases f2 <;> simp [convert, ResSim]
+    | fn f1 f2 _ _ _ => cases f1 <;> cases f2 <;> simp [convert, ResSim]
     | pair _ _ => simpa [convert, ResSim] using h0
     | _ => simp [convert, ResSim]
   | query =>
     cases h with
-    | fn f1 f2 _ _ => cases f1 <;> cases f2 <;> simp [convert, ResSim]
+    | fn f1 f2 _ _ _ => cases f1 <;> cases f2 <;> simp [convert, ResSim]
     | query _ => simpa [convert, ResSim] using h0
     | _ => simp [convert, ResSim]
   | callable =>
     cases h with
-    | fn f1 f2 _ _ => cases f1 <;> cases f2 <;> simpa [convert, ResSim, Val.isCallable] using h0
+    | fn f1 f2 _ _ _ => cases f1 <;> cases f2 <;> simpa [convert, ResSim, Val.isCallable] using h0
     | query _ => simpa [convert, ResSim] using Sim.refl_builtin .matchq
     | _ => simp [convert, ResSim, Val.isCallable]
 
@@ -274,15 +274,54 @@ theorem Sim.shape {v' v : Val} (h : Sim v' v) :
   | other k t => exact Or.inr (Or.inr (Or.inl ⟨k, t, rfl, rfl⟩))
   | query hq => exact Or.inr (Or.inr (Or.inr (Or.inl ⟨_, _, rfl, rfl, hq⟩)))
   | pair h1 h2 => exact Or.inr (Or.inr (Or.inr (Or.inr (Or.inl ⟨_, _, _, _, rfl, rfl, h1, h2⟩))))
-  | fn f1 f2 _ _ => exact Or.inr (Or.inr (Or.inr (Or.inr (Or.inr ⟨f1.isFn, f2.isFn⟩))))
+  | fn f1 f2 _ _ _ => exact Or.inr (Or.inr (Or.inr (Or.inr (Or.inr ⟨f1.isFn, f2.isFn⟩))))
 
 /-- split a `Sim` hypothesis into the constructor shapes of both values (the hypothesis is kept) -/
 macro "sim_cases" h:ident : tactic =>
   `(tactic| (rcases Sim.shape $h with ⟨_, e1, e2⟩ | ⟨_, e1, e2⟩ | ⟨_, _, e1, e2⟩ | ⟨_, _, e1, e2, _⟩ |
       ⟨_, _, _, _, e1, e2, _, _⟩ | ⟨(⟨_, e1⟩ | ⟨_, _, e1⟩), (⟨_, e2⟩ | ⟨_, _, e2⟩)⟩) <;> subst_vars)
 
+theorem Sim.cell : ∀ (v' v : Val), Sim v' v → v'.cellToks = v.cellToks
+  | _, _, .int _ => rfl
+  | _, _, .str _ => rfl
+  | _, _, .other _ _ => rfl
+  | _, _, .query _ => rfl
+  | .pair a' b', .pair a b, .pair h1 h2 => by
+    simp [Val.cellToks, Sim.cell a' a h1, Sim.cell b' b h2]
+  | v', v, .fn h1 h2 hs hd hv => by
+    have ha := (Sim.fn h1 h2 hs hd hv).arity
+    cases h1 <;> cases h2 <;> simp only [Val.cellToks] <;> rw [ha]
+
+theorem Sims_collText : ∀ {ps' ps : List Val}, Sims ps' ps →
+    collText ps' = collText ps ∧ ps'.all isPairVal = ps.all isPairVal
+  | [], _, h => by cases h; exact ⟨rfl, rfl⟩
+  | p :: ps, _, h => by
+    cases h with
+    | cons h1 h2 =>
+      obtain ⟨e1, e2⟩ := Sims_collText h2
+      cases h1 with
+      | pair ha hb => simp [collText, isPairVal, Sim.cell _ _ ha, Sim.cell _ _ hb, e1, e2]
+      | fn f1 f2 _ _ _ => cases f1 <;> cases f2 <;> simp_all [collText, isPairVal]
+      | _ => simp_all [collText, isPairVal]
+
+theorem step_sim_collection {cs' cs : List Val} (h : Sims cs' cs) :
+    StepSim (Builtin.step .collection cs') (Builtin.step .collection cs) := by
+  obtain ⟨e1, e2⟩ := Sims_collText h
+  rw [B6.Lemmas.VMLambda.step_collection, B6.Lemmas.VMLambda.step_collection, e1, e2]
+  split <;> simp [StepSim]
+  exact .other _ _
+
+theorem step_sim_call {cs' cs : List Val} (h : Sims cs' cs) :
+    StepSim (Builtin.step .call cs') (Builtin.step .call cs) := by
+  cases h with
+  | nil => simp [B6.Lemmas.VMLambda.step_call_nil, StepSim]
+  | cons h1 h2 => simp only [B6.Lemmas.VMLambda.step_call_cons, StepSim]; exact ⟨h1, h2⟩
+
 theorem step_sim {b : Builtin} {cs' cs : List Val} (h : Sims cs' cs) : StepSim (b.step cs') (b.step cs) := by
-  cases b <;> rcases h with _ | ⟨h1, _ | ⟨h2, _ | ⟨h3, _ | ⟨h4, h5⟩⟩⟩⟩ <;>
+  cases b
+  case collection => exact step_sim_collection h
+  case call => exact step_sim_call h
+  all_goals rcases h with _ | ⟨h1, _ | ⟨h2, _ | ⟨h3, _ | ⟨h4, h5⟩⟩⟩⟩ <;>
     first
     | sstep_tac
     | (sim_cases h1 <;> first
